@@ -101,7 +101,8 @@ func (vc *VC) flushWF(s *State) {
 		return
 	}
 	a := vc.allocGet(s)
-	for name, h := range vc.pendingWF {
+	for _, name := range sortedKeys(vc.pendingWF) {
+		h := vc.pendingWF[name]
 		if cur, ok := s.heaps[name]; ok && cur == h {
 			if f := vc.heapWF(name, h, a); f != "" {
 				vc.quantCtx = true
